@@ -134,6 +134,14 @@ def stepWith (which : Nat) (s : St) (toks : List String) (impl : String) : St ×
   if negOffset toks then
     (s, "panic:index", if impl == "panic:index" then "ok" else "bad C05 Peek/Remove of a negative offset must panic (index out of range) and change nothing")
   else
+  match toks with
+  | ["each", k] =>
+    -- `Each` with early stop (state unchanged): the callback stops after `max k 1` elements, so exactly that
+    -- prefix of the array is visited (`Props.C05`: `Each` enumerates `data` in array order)
+    let want := s.m.h.data.take (max (k.toNat?.getD 0) 1)
+    let mobs := s!"r={fmtNats want};d={fmtNats s.m.h.data};m=[]"
+    (s, mobs, if impl == mobs then "ok" else "bad C05 Each with early stop must visit exactly the first elements of the queue in array order and then stop")
+  | _ =>
   match parseOp toks with
   | none => (s, "bad-op", "bad bad-op")
   | some op =>
